@@ -80,6 +80,10 @@ def handle (req : Sexp) : Sexp :=
     match Expr.ofSexp? y, symList? eps, Expr.ofSexp? cond with
     | some y, some eps, some cond => (timeVarying y eps theta cond).toSexp
     | _, _, _ => bad
+  | .list [.atom "combinedtv", e0, e1, cond, eps, .atom p, .atom a, hasEta, .atom eta, .atom theta] =>
+    match Expr.ofSexp? e0, Expr.ofSexp? e1, Expr.ofSexp? cond, symList? eps, hasEta.asBool? with
+    | some e0, some e1, some cond, some eps, some hasEta => (combinedOnTimeVarying e0 e1 cond eps p a hasEta eta theta).toSexp
+    | _, _, _, _, _ => bad
   | .list [.atom "allometry", ss, .atom p, var, ref, .atom theta] =>
     match stmts? ss, Expr.ofSexp? var, Expr.ofSexp? ref with
     | some ss, some var, some ref => optStmts (addAllometry ss p var ref theta)
